@@ -165,7 +165,14 @@ def execute(program, ctx, mode):
         def __ne__(self, other):
             return not self.__eq__(other)
         __hash__ = None
-    utils = [Hashable('u0'), Hashable('u1'), Hashable('u2'), EqHashable('ue0'), EqHashable('ue1'),
+    class FalsyHashable(Hashable):
+        """a utility that is false in a boolean context (an empty container-like component)"""
+        def __bool__(self):
+            return False
+
+        def __len__(self):
+            return 0
+    utils = [Hashable('u0'), Hashable('u1'), FalsyHashable('u2'), EqHashable('ue0'), EqHashable('ue1'),
              Unhashable(lab='ud0', k=1), Unhashable(lab='ud1', k=1), Unhashable(lab='ud2', k=2)]
     named = Hashable('un')
     named.__component_name__ = 'a'
@@ -202,7 +209,11 @@ def execute(program, ctx, mode):
 
         def __repr__(self):
             return self.lab
-    facts = [Factory('f0'), Factory('f1'), Factory('f2', ret='none'), Factory('fe0', eq='e'), Factory('fe1', eq='e')]
+    class FalsyFactory(Factory):
+        """a factory / handler object that is false in a boolean context"""
+        def __bool__(self):
+            return False
+    facts = [Factory('f0'), FalsyFactory('f1'), Factory('f2', ret='none'), Factory('fe0', eq='e'), Factory('fe1', eq='e')]
 
     @implementer(P1)
     class ImplFactory(Factory):
